@@ -1126,3 +1126,213 @@ Proof.
   intros scope emp tol rows f s bt s' H. destruct (omit_is_inert _ _ _ _ _ _ _ _ _ H) as [Hc [ev [Hl Hf]]].
   split; [exact Hc|]. exists ev. repeat split; try assumption. exact (skip_events_no_tokens _ Hf).
 Qed.
+
+(* ------------------------------------------------------------------ 7. context extension = textual substitution *)
+Section Sub.
+Variable pol : undefined_policy.
+Variables x v : str.
+
+Lemma str_eqb_false_neq a b : str_eqb a b = false -> a <> b.
+Proof. intros H ->. rewrite str_eqb_refl in H. discriminate. Qed.
+
+Lemma render_sub c1 c2 t :
+  agree_except x c1 c2 -> cget c1 x = Some (VS v) ->
+  render pol c1 t = render pol c2 (map (sub_seg x v) t).
+Proof.
+  intros Ha Hx. induction t as [|[s|y] t IH]; cbn [map sub_seg render]; [reflexivity|rewrite IH; reflexivity|].
+  destruct (str_eqb y x) eqn:E.
+  - apply str_eqb_eq in E. subst y. rewrite Hx. cbn [render value_str]. rewrite IH. reflexivity.
+  - cbn [render]. rewrite (Ha y (str_eqb_false_neq _ _ E)), IH. reflexivity.
+Qed.
+
+Lemma instantiate_sub c1 c2 r :
+  agree_except x c1 c2 -> cget c1 x = Some (VS v) ->
+  instantiate pol c1 r = instantiate pol c2 (sub_row x v r).
+Proof.
+  intros Ha Hx. unfold instantiate, sub_row. cbn [rw_inc rw_id rw_text rw_kind rw_vars rw_iter].
+  assert (Hi : eval_inc pol c1 (rw_inc r) = eval_inc pol c2 (sub_inc x v (rw_inc r))).
+  { destruct (rw_inc r) as [| |y]; cbn [sub_inc eval_inc]; try reflexivity.
+    destruct (str_eqb y x) eqn:E.
+    - apply str_eqb_eq in E. subst y. rewrite Hx. cbn [value_str].
+      destruct (str_eqb (lower (strip v)) s_false); reflexivity.
+    - cbn [eval_inc]. rewrite (Ha y (str_eqb_false_neq _ _ E)). reflexivity. }
+  rewrite Hi. destruct (eval_inc pol c2 (sub_inc x v (rw_inc r))) as [[|]|]; try reflexivity.
+  rewrite <- (render_sub c1 c2 (rw_id r) Ha Hx), <- (render_sub c1 c2 (rw_text r) Ha Hx).
+  destruct (render pol c1 (rw_id r)); [|reflexivity]. destruct (render pol c1 (rw_text r)); [|reflexivity].
+  destruct (rw_kind r); try reflexivity.
+  assert (Ht : eval_iter pol c1 (rw_iter r) = eval_iter pol c2 (sub_iter x v (rw_iter r))).
+  { destruct (rw_iter r) as [l|y]; cbn [sub_iter eval_iter]; [reflexivity|].
+    destruct (str_eqb y x) eqn:E.
+    - apply str_eqb_eq in E. subst y. rewrite Hx. reflexivity.
+    - cbn [eval_iter]. rewrite (Ha y (str_eqb_false_neq _ _ E)). reflexivity. }
+  rewrite Ht. reflexivity.
+Qed.
+
+Lemma instantiate_vars c r row : instantiate pol c r = ROk row -> i_inc row = true -> i_vars row = rw_vars r.
+Proof.
+  unfold instantiate. destruct (eval_inc pol c (rw_inc r)) as [[|]|]; try discriminate.
+  - destruct (render pol c (rw_id r)); [|discriminate]. destruct (render pol c (rw_text r)); [|discriminate].
+    destruct (rw_kind r); try (intros H; inversion H; reflexivity).
+    destruct (eval_iter pol c (rw_iter r)); intros H; inversion H; reflexivity.
+  - intros H; inversion H; subst. cbn. discriminate.
+Qed.
+
+Lemma agree_bind c1 c2 y idy e n :
+  agree_except x c1 c2 -> agree_except x (bind_loop c1 y idy e n) (bind_loop c2 y idy e n).
+Proof.
+  intros Ha z Hz. unfold bind_loop.
+  assert (H1 : cget (cset c1 y (VS e)) z = cget (cset c2 y (VS e)) z).
+  { destruct (str_eqb y z) eqn:E.
+    - apply str_eqb_eq in E. subst z. rewrite !cget_cset_same. reflexivity.
+    - pose proof (str_eqb_false_neq _ _ E) as Hn.
+      rewrite (cget_cset_other c1 y z (VS e) Hn), (cget_cset_other c2 y z (VS e) Hn). exact (Ha z Hz). }
+  destruct idy as [i|]; [|exact H1].
+  destruct (str_eqb i z) eqn:E.
+  - apply str_eqb_eq in E. subst z. rewrite !cget_cset_same. reflexivity.
+  - pose proof (str_eqb_false_neq _ _ E) as Hn.
+    rewrite (cget_cset_other _ i z (VS (enc_dec n)) Hn), (cget_cset_other _ i z (VS (enc_dec n)) Hn). exact H1.
+Qed.
+
+Lemma bound_bind c y idy e n :
+  cget c x = Some (VS v) -> y <> x -> (forall i, idy = Some i -> i <> x) ->
+  cget (bind_loop c y idy e n) x = Some (VS v).
+Proof.
+  intros Hx Hy Hi. unfold bind_loop. destruct idy as [i|].
+  - rewrite cget_cset_other by (exact (Hi i eq_refl)). rewrite cget_cset_other by exact Hy. exact Hx.
+  - rewrite cget_cset_other by exact Hy. exact Hx.
+Qed.
+
+Notation SUB := (map (sub_row x v)).
+
+Lemma ds_iter_sub (b1 b2 : ctx -> res (list raw * list raw)) c1 c2 y idy :
+  agree_except x c1 c2 -> cget c1 x = Some (VS v) -> y <> x -> (forall i, idy = Some i -> i <> x) ->
+  (forall d1 d2, agree_except x d1 d2 -> cget d1 x = Some (VS v) ->
+     b2 d2 = map_rem SUB (b1 d1) /\ (forall o rem, b1 d1 = ROk (o, rem) -> Forall (no_rebind x) rem)) ->
+  forall elems n rem0,
+    ds_iter b2 c2 y idy elems n (SUB rem0) = map_rem SUB (ds_iter b1 c1 y idy elems n rem0)
+    /\ (Forall (no_rebind x) rem0 -> forall o rem, ds_iter b1 c1 y idy elems n rem0 = ROk (o, rem) -> Forall (no_rebind x) rem).
+Proof.
+  intros Ha Hx Hy Hi Hb. induction elems as [|e more IH]; intros n rem0; cbn [ds_iter].
+  - split; [reflexivity|]. intros H0 o rem H. inversion H; subst. exact H0.
+  - destruct (Hb (bind_loop c1 y idy e n) (bind_loop c2 y idy e n) (agree_bind _ _ _ _ _ _ Ha) (bound_bind _ _ _ _ _ Hx Hy Hi)) as [Hb1 Hb2].
+    rewrite Hb1. destruct (b1 (bind_loop c1 y idy e n)) as [[o1 rem1]|e1]; cbn [map_rem]; [|split; [reflexivity|discriminate]].
+    destruct (IH (S n) rem1) as [IH1 IH2]. rewrite IH1.
+    destruct (ds_iter b1 c1 y idy more (S n) rem1) as [[o2 rem2]|e2] eqn:E2; cbn [map_rem]; (split; [reflexivity|]).
+    + intros _ o rem H. inversion H; subst. exact (IH2 (Hb2 _ _ eq_refl) _ _ eq_refl).
+    + discriminate.
+Qed.
+
+Theorem ds_sub : forall f rest c1 c2 bt omit,
+  agree_except x c1 c2 -> cget c1 x = Some (VS v) -> Forall (no_rebind x) rest ->
+  ds pol f (SUB rest) c2 bt omit = map_rem SUB (ds pol f rest c1 bt omit)
+  /\ (forall o rem, ds pol f rest c1 bt omit = ROk (o, rem) -> Forall (no_rebind x) rem).
+Proof.
+  induction f as [|f IH]; intros rest c1 c2 bt omit Ha Hx Hnr; [split; [reflexivity|discriminate]|].
+  destruct rest as [|r rest1]; cbn [map ds].
+  { destruct (end_of_block bt None) as [b|e]; cbn [map_rem]; split; try reflexivity; try discriminate.
+    intros o rem H. inversion H; subst. constructor. }
+  inversion Hnr as [|r0 l0 Hr Hnr1]; subst r0 l0.
+  assert (Hrow : (if omit then ROk (mkI (rw_kind (sub_row x v r)) true [] [] [] []) else instantiate pol c2 (sub_row x v r))
+                 = (if omit then ROk (mkI (rw_kind r) true [] [] [] []) else instantiate pol c1 r)).
+  { destruct omit; [reflexivity|]. symmetry. exact (instantiate_sub c1 c2 r Ha Hx). }
+  rewrite Hrow.
+  destruct (if omit then ROk (mkI (rw_kind r) true [] [] [] []) else instantiate pol c1 r) as [row|e] eqn:Erow; [|split; [reflexivity|discriminate]].
+  destruct (end_of_block bt (Some (i_kind row))) as [[|]|e]; [| |split; [reflexivity|discriminate]].
+  { cbn [map_rem]. split; [reflexivity|]. intros o rem H. inversion H; subst. exact Hnr1. }
+  (* nested call then continuation; single continuation *)
+  assert (Hone : forall (K : list raw -> list raw * list raw -> res (list raw * list raw)),
+            (forall o rem, K (SUB rem) (o, SUB rem) = map_rem SUB (K rem (o, rem))) -> True) by (intros; exact I).
+  clear Hone.
+  assert (Hcont : forall (g : list raw -> list raw),
+            (match ds pol f (SUB rest1) c2 bt omit with
+             | ROk (out, rem) => ROk (g out, rem) | RErr e => RErr e end
+             = map_rem SUB match ds pol f rest1 c1 bt omit with
+                           | ROk (out, rem) => ROk (g out, rem) | RErr e => RErr e end)
+            /\ (forall o rem, match ds pol f rest1 c1 bt omit with
+                              | ROk (out, rem) => ROk (g out, rem) | RErr e => RErr e end = ROk (o, rem) -> Forall (no_rebind x) rem)).
+  { intros g. destruct (IH rest1 c1 c2 bt omit Ha Hx Hnr1) as [H1 H2]. rewrite H1.
+    destruct (ds pol f rest1 c1 bt omit) as [[o rem]|e]; cbn [map_rem]; (split; [reflexivity|]); [|discriminate].
+    intros o' rem' H. inversion H; subst. exact (H2 _ _ eq_refl). }
+  assert (Hskip : forall b,
+            (match ds pol f (SUB rest1) c2 b true with
+             | ROk (_, rest2) => ds pol f rest2 c2 bt omit | RErr e => RErr e end
+             = map_rem SUB match ds pol f rest1 c1 b true with
+                           | ROk (_, rest2) => ds pol f rest2 c1 bt omit | RErr e => RErr e end)
+            /\ (forall o rem, match ds pol f rest1 c1 b true with
+                              | ROk (_, rest2) => ds pol f rest2 c1 bt omit | RErr e => RErr e end = ROk (o, rem) -> Forall (no_rebind x) rem)).
+  { intros b. destruct (IH rest1 c1 c2 b true Ha Hx Hnr1) as [H1 H2]. rewrite H1.
+    destruct (ds pol f rest1 c1 b true) as [[o rem]|e]; cbn [map_rem]; [|split; [reflexivity|discriminate]].
+    exact (IH rem c1 c2 bt omit Ha Hx (H2 _ _ eq_refl)). }
+  assert (Hplainskip : ds pol f (SUB rest1) c2 bt omit = map_rem SUB (ds pol f rest1 c1 bt omit)
+                       /\ (forall o rem, ds pol f rest1 c1 bt omit = ROk (o, rem) -> Forall (no_rebind x) rem)).
+  { exact (IH rest1 c1 c2 bt omit Ha Hx Hnr1). }
+  destruct (omit || negb (i_inc row)) eqn:Esk.
+  - destruct (i_kind row); [apply Hskip|exact Hplainskip|apply Hskip|exact Hplainskip|exact Hplainskip].
+  - apply orb_false_iff in Esk. destruct Esk as [-> Hinc]. apply negb_false_iff in Hinc.
+    destruct (i_kind row) eqn:Ek.
+    + (* loop *)
+      pose proof (instantiate_vars _ _ _ Erow Hinc) as Hv.
+      destruct (i_vars row) as [|y more] eqn:Ev; [split; [reflexivity|discriminate]|].
+      destruct y as [|y0 yr]; [split; [reflexivity|discriminate]|].
+      set (y := y0 :: yr) in *.
+      assert (Hy : y <> x).
+      { intros ->. apply Hr. rewrite <- Hv. left. reflexivity. }
+      assert (Hi : forall i, idx_of more = Some i -> i <> x).
+      { intros i Hi ->. apply Hr. rewrite <- Hv. right. unfold idx_of in Hi. destruct more as [|i0 m0]; [discriminate|].
+        destruct i0; [discriminate|]. inversion Hi; subst. left. reflexivity. }
+      destruct (ds_iter_sub (fun c' => ds pol f rest1 c' BFor false) (fun c' => ds pol f (SUB rest1) c' BFor false)
+                  c1 c2 y (idx_of more) Ha Hx Hy Hi
+                  (fun d1 d2 Hda Hdx => IH rest1 d1 d2 BFor false Hda Hdx Hnr1) (i_iter row) 0 rest1) as [HI1 HI2].
+      rewrite HI1.
+      destruct (ds_iter (fun c' => ds pol f rest1 c' BFor false) c1 y (idx_of more) (i_iter row) 0 rest1) as [[bodies rest2]|e] eqn:EI;
+        cbn [map_rem]; [|split; [reflexivity|discriminate]].
+      pose proof (HI2 Hnr1 _ _ eq_refl) as Hnr2.
+      assert (Hsk : (match i_iter row with [] => ds pol f (SUB rest1) c2 BFor true | _ => ROk ([], SUB rest2) end)
+                    = map_rem SUB (match i_iter row with [] => ds pol f rest1 c1 BFor true | _ => ROk ([], rest2) end)
+                    /\ (forall o rem, (match i_iter row with [] => ds pol f rest1 c1 BFor true | _ => ROk ([], rest2) end) = ROk (o, rem) ->
+                                      Forall (no_rebind x) rem)).
+      { destruct (i_iter row); [exact (IH rest1 c1 c2 BFor true Ha Hx Hnr1)|].
+        split; [reflexivity|]. intros o rem H. inversion H; subst. exact Hnr2. }
+      destruct Hsk as [Hsk1 Hsk2]. rewrite Hsk1.
+      destruct (match i_iter row with [] => ds pol f rest1 c1 BFor true | _ => ROk ([], rest2) end) as [[oo rest3]|e];
+        cbn [map_rem]; [|split; [reflexivity|discriminate]].
+      destruct (IH rest3 c1 c2 bt false Ha Hx (Hsk2 _ _ eq_refl)) as [H1 H2]. rewrite H1.
+      destruct (ds pol f rest3 c1 bt false) as [[o rem]|e]; cbn [map_rem]; (split; [reflexivity|]); [|discriminate].
+      intros o' rem' H. inversion H; subst. exact (H2 _ _ eq_refl).
+    + exact (Hcont _).
+    + (* block *)
+      destruct (IH rest1 c1 c2 BBlock false Ha Hx Hnr1) as [H1 H2]. rewrite H1.
+      destruct (ds pol f rest1 c1 BBlock false) as [[body rest2]|e]; cbn [map_rem]; [|split; [reflexivity|discriminate]].
+      destruct (IH rest2 c1 c2 bt false Ha Hx (H2 _ _ eq_refl)) as [H3 H4]. rewrite H3.
+      destruct (ds pol f rest2 c1 bt false) as [[o rem]|e]; cbn [map_rem]; (split; [reflexivity|]); [|discriminate].
+      intros o' rem' H. inversion H; subst. exact (H4 _ _ eq_refl).
+    + exact (Hcont _).
+    + exact (Hcont _).
+Qed.
+
+End Sub.
+
+Lemma no_rebind_sub x y v rows : Forall (no_rebind x) rows -> Forall (no_rebind x) (map (sub_row y v) rows).
+Proof. induction 1 as [|r l Hr _ IH]; cbn [map]; constructor; [exact Hr|exact IH]. Qed.
+
+Lemma agree_cset x c v : agree_except x (cset c x v) c.
+Proof. intros y Hy. apply cget_cset_other. intros ->. apply Hy. reflexivity. Qed.
+
+(* desugaring the body of a loop in the context EXTENDED with the loop (and index) variable = desugaring, in
+   the context the loop was reached with, the body in which {{x}} (and {{i}}) have been replaced textually —
+   when no loop inside the body binds one of the two names again (then the context reading is the definition) *)
+Theorem ds_body_substituted pol f rest c x idx e n bt omit b rem :
+  Forall (no_rebind x) rest -> (forall i, idx = Some i -> Forall (no_rebind i) rest) ->
+  ds pol f rest (bind_loop c x idx e n) bt omit = ROk (b, rem) ->
+  ds pol f (subst_loop x idx e n rest) c bt omit = ROk (b, subst_loop x idx e n rem).
+Proof.
+  intros Hx Hi H. unfold subst_loop, bind_loop in *. destruct idx as [i|].
+  - destruct (ds_sub pol i (enc_dec n) f rest (cset (cset c x (VS e)) i (VS (enc_dec n))) (cset c x (VS e)) bt omit
+                (agree_cset _ _ _) (cget_cset_same _ _ _) (Hi i eq_refl)) as [H1 _].
+    rewrite H in H1. cbn [map_rem] in H1.
+    destruct (ds_sub pol x e f (map (sub_row i (enc_dec n)) rest) (cset c x (VS e)) c bt omit
+                (agree_cset _ _ _) (cget_cset_same _ _ _) (no_rebind_sub _ _ _ _ Hx)) as [H2 _].
+    rewrite H1 in H2. exact H2.
+  - destruct (ds_sub pol x e f rest (cset c x (VS e)) c bt omit (agree_cset _ _ _) (cget_cset_same _ _ _) Hx) as [H2 _].
+    rewrite H in H2. exact H2.
+Qed.
